@@ -3,6 +3,9 @@ import SciVerif.Lemmas.C17b
 import SciVerif.Lemmas.C17w
 import SciVerif.Lemmas.C17x
 import SciVerif.Lemmas.C17q
+import SciVerif.Lemmas.C17i
+import SciVerif.Lemmas.C17j
+import SciVerif.Lemmas.C17k
 import SciVerif.Generated.C17Units
 
 /-!
@@ -432,11 +435,12 @@ invariant on stored nodes; `InFrag` / `FragRun` are the side conditions of the p
 /-- Full statement: every program of definition / modification / injection / import lines runs
     in the model exactly as in the specification — without side conditions.  Proved parts:
     `C17_refinement_partial` (flat programs), `C17_refinement_nested_partial` (lines nested by
-    indentation, group lines, property lines), `C17_refinement_rejected` (wildcard / missing
-    injections are errors on both sides).  Still missing: declared nodes inside the invariant
-    (`Inv` requires every stored node to hold a value), import lines below an indented group (the
-    nested theorem keeps import lines at the root), `$unit` / option / `@case` hosts by reference as
-    refinement statements, and dropping the side conditions. -/
+    indentation, group lines, property lines), `C17_refinement_nested_imports_partial` (the same
+    with import lines at any indentation, below indented groups), `C17_refinement_rejected`
+    (wildcard / missing injections are errors on both sides); `C17_refinement_checked_partial`
+    states the flat part with its side conditions as an executable check.  Still missing: declared
+    nodes inside the invariant (`Inv` requires every stored node to hold a value), `$unit` / option /
+    `@case` hosts by reference as refinement statements, and dropping the side conditions. -/
 def C17_refinement_statement : Prop :=
   ∀ (tbl : UnitTable) (stmts : List SStmt) (items : List Item) (env : Env) (s' : SEnv),
     Inv tbl env → stmts.mapM conc = some items → sRun tbl (absEnv env) stmts = .ok s' →
@@ -496,6 +500,176 @@ theorem C17_refinement_nested_partial (tbl : UnitTable) (lines : List HLine) (it
     (h : sRun tbl (absEnv env) (lines.filterMap HLine.stmt?) = .ok s') :
     ∃ env', items.foldlM (step tbl) env = .ok env' ∧ absEnv env' = s' ∧ Inv tbl env' :=
   refine_runH tbl lines items env s' hinv hrun hc h
+
+/-- Proved part, nested programs WITH IMPORT LINES AT ANY INDENTATION (strictly more programs than
+    `C17_refinement_nested_partial`, which keeps import lines at the root): a program is a list of
+    `NLine`s — every line of the nested theorem (group lines, definitions / modifications /
+    injections at any indent, root imports, property lines) and import lines `pre {source?q}` or
+    `{source?q}` written at ANY indent `i` below any chain of groups.  `ImportNode.parse` hands
+    each copy over with the indent of the import line and the main loop registers every copy with
+    the hierarchy stack (each copy pops its predecessor); the theorem shows that all copies land
+    below the same chain of parents, i.e. exactly where the path-keyed specification's
+    `.imp dest source q` puts them, for every request form (`*`, `p.*`, `p`), local or remote,
+    onto fresh paths or onto existing nodes.  Side conditions (`RunN`, checked along the joint
+    run): those of `RunH` for the old lines; for an import line at indent `i`: `InFrag` of
+    `.imp dest source q`, no `{` in the written prefix `pre`, and `ImpPathOK`: the chain of
+    parents of the line, then `pre`, is `dest` (see `C17_import_path_parents`).  Still missing
+    from `C17_refinement_statement`: declared nodes in `Inv`, hosts by reference as refinement
+    statements, dropping the side conditions. -/
+theorem C17_refinement_nested_imports_partial (tbl : UnitTable) (lines : List NLine) (items : List Item)
+    (env : Env) (s' : SEnv) (hinv : Inv tbl env) (hrun : RunN tbl env lines)
+    (hc : lines.mapM NLine.item = some items)
+    (h : sRun tbl (absEnv env) (lines.filterMap NLine.stmt?) = .ok s') :
+    ∃ env', items.foldlM (step tbl) env = .ok env' ∧ absEnv env' = s' ∧ Inv tbl env' :=
+  refine_runN tbl lines items env s' hinv hrun hc h
+
+/-- the single import line at indent `i` behind it -/
+theorem C17_refinement_import_at_step (tbl : UnitTable) (env : Env) (hinv : Inv tbl env) (i : Nat)
+    (pre dest : List Str) (source : Option Str) (q : SQuery) (s' : SEnv)
+    (hfrag : InFrag (absEnv env) (.imp dest source q)) (hpre : '{' ∉ joinDot pre)
+    (hpath : ImpPathOK env.parents i pre dest)
+    (h : sStep tbl (absEnv env) (.imp dest source q) = .ok s') :
+    ∃ env', step tbl env (.node (impAt i pre source q)) = .ok env' ∧ absEnv env' = s' ∧ Inv tbl env' :=
+  refine_imp_at tbl env hinv i pre dest source q s' hfrag hpre hpath h
+
+/-- the nested-imports theorem contains the nested theorem: a program without indented import
+    lines satisfies `RunN` as soon as it satisfies `RunH` -/
+theorem C17_nested_imports_conservative (tbl : UnitTable) (lines : List HLine) (env : Env)
+    (h : RunH tbl env lines) : RunN tbl env (lines.map NLine.base) :=
+  runN_of_runH tbl lines env h
+
+/-- `ImpPathOK` in its natural form: the destination of an import line `pre {…}` written at
+    indent `i` is the chain of names left on the hierarchy stack (by `C17_paths`: the nearest
+    earlier lines with smaller indentation, outermost first) followed by the written prefix. -/
+theorem C17_import_path_parents (ps : List (Nat × Str)) (i : Nat) (pre : List Str) :
+    ImpPathOK ps i pre (((popParents i ps).reverse.map Prod.snd) ++ pre) :=
+  impPathOK_parents ps i pre
+
+/-- the hypotheses of the indented import step are satisfiable by a non-trivial instance: after
+    `a float = 3 m` and the group line `g` (indent 0), the line `{?*}` at indent 2 imports to `g` -/
+example : let env : Env := { Env.empty with
+      nodes := [{ blank ['a'] .float with value := some (.num 3), unitsRaw := some ['m'] }],
+      parents := [(0, ['g'])] }
+    Inv unitTable env ∧ InFrag (absEnv env) (.imp [['g']] none .all) ∧ '{' ∉ joinDot ([] : List Str) ∧
+    ImpPathOK env.parents 2 [] [['g']] ∧
+    (∃ s', sStep unitTable (absEnv env) (.imp [['g']] none .all) = .ok s') := by
+  intro env
+  refine ⟨⟨?_, by simp [env, Env.empty]⟩, ?_, by simp [joinDot], ?_, ?_⟩
+  · intro n hn
+    simp only [env, List.mem_singleton] at hn
+    subst hn
+    refine ⟨rfl, ⟨.num 3, rfl, by simp [blank, conforms, castScalar]⟩, rfl, ?_, by simp [blank]⟩
+    simp [blank, unitOk, isNumKw, lookupUnit, unitTable]
+  · refine ⟨by simp [WFSource], by simp [WFDest], by simp [joinDot], by simp [renderQ], trivial, ?_⟩
+    intro ss hss
+    simp only [sLookup, absEnv, env, List.map_cons, List.map_nil, List.isEmpty_cons, Bool.false_eq_true,
+      if_false, Option.some.injEq] at hss
+    subst hss
+    simp [select, sMatches]
+  · exact impPathOK_parents [(0, ['g'])] 2 []
+  · refine ⟨⟨[⟨[['a']], .float, [], some ['m'], some (.num 3), false, none, none, [], [], none⟩,
+        ⟨[['g'], ['a']], .float, [], some ['m'], some (.num 3), false, none, none, [], [], none⟩], [], false, [], []⟩, ?_⟩
+    have hf : List.filter (sMatches SQuery.all)
+        [(⟨[['a']], .float, [], some ['m'], some (.num 3), false, none, none, [], [], none⟩ : SNode)] =
+        [⟨[['a']], .float, [], some ['m'], some (.num 3), false, none, none, [], [], none⟩] := rfl
+    simp [sStep, sLookup, absEnv, env, select, hf, sReroot, sImportAll, sImportOne, absN, blank, splitDot,
+      Env.empty]
+
+/-- … and with the destination COMPUTED from the hierarchy stack and the written prefix
+    (`impDest`: the names left on the stack, then the prefix, joined and split at the dots — a group
+    line may itself carry a dotted name) two side conditions of an indented import line hold for
+    every stack, indent and prefix: `ImpPathOK` and the `WFDest` conjunct of `InFrag`. -/
+theorem C17_import_dest_computed (ps : List (Nat × Str)) (i : Nat) (pre : List Str) :
+    ImpPathOK ps i pre (impDest ps i pre) ∧ WFDest (impDest ps i pre) :=
+  impDest_ok ps i pre
+
+example : impDest [(2, ['b', '.', 'c']), (0, ['a'])] 4 [['h']] = [['a'], ['b'], ['c'], ['h']] ∧
+    impDest [(2, ['b']), (0, ['a'])] 2 [] = [['a']] ∧ impDest [] 0 [] = [] := by decide
+
+/-- The side conditions of the flat refinement theorem are an executable check: `fragRunB` (a
+    `Bool`-valued function of the unit table, the initial specification environment and the
+    program: it evaluates the decidable form `inFragB` of `InFrag` for each statement in the
+    environment the specification's own run reaches) accepts exactly the programs of the proved
+    fragment — sound and complete. -/
+theorem C17_fragment_decidable (tbl : UnitTable) (senv : SEnv) (stmts : List SStmt) :
+    (fragRunB tbl senv stmts = true ↔ FragRun tbl senv stmts) ∧
+    (∀ s, inFragB senv s = true ↔ InFrag senv s) :=
+  ⟨fragRunB_iff tbl senv stmts, fun s => ⟨inFragB_sound senv s, inFragB_complete senv s⟩⟩
+
+/-- Proved part with the side condition as a computation: for every program that the check
+    `fragRunB` accepts (no `Prop`-valued hypothesis about the program is left; by
+    `C17_fragment_decidable` these are exactly the programs of `C17_refinement_partial`), from every
+    environment satisfying the invariant: whenever the specification accepts the program, the
+    model's main loop accepts its lines and ends in the abstraction of the specification's result.
+    Still missing from `C17_refinement_statement`: the programs `fragRunB` refuses (declared nodes,
+    hosts by reference, sliced modifications, injections across types, integer nodes with units,
+    empty imports). -/
+theorem C17_refinement_checked_partial (tbl : UnitTable) (stmts : List SStmt) (items : List Item)
+    (env : Env) (s' : SEnv) (hinv : Inv tbl env) (hchk : fragRunB tbl (absEnv env) stmts = true)
+    (hc : stmts.mapM conc = some items) (h : sRun tbl (absEnv env) stmts = .ok s') :
+    ∃ env', items.foldlM (step tbl) env = .ok env' ∧ absEnv env' = s' ∧ Inv tbl env' :=
+  refine_run tbl stmts items env s' hinv (fragRunB_sound tbl (absEnv env) stmts hchk) hc h
+
+/-- the check accepts a non-trivial program (definition with unit, injected definition that adopts
+    the unit, modification by injection, import of everything below `g`) … and refuses one that
+    injects across types -/
+example : fragRunB unitTable (absEnv Env.empty)
+      [.defn [['a']] .float [] (.lit (.num 3)) (some ['m']),
+       .defn [['b']] .float [] (.inj none (.exact [['a']]) []) none,
+       .modl [['a']] (.inj none (.exact [['b']]) []) (some ['c', 'm']),
+       .imp [['g']] none .all] = true ∧
+    fragRunB unitTable (absEnv Env.empty)
+      [.defn [['a']] .float [] (.lit (.num 3)) (some ['m']),
+       .defn [['b']] .str [] (.inj none (.exact [['a']]) []) none] = false := by
+  decide +kernel
+
+/-- Proved part, nested programs, side conditions as a computation: `runNB` (a `Bool`-valued
+    function of the unit table, the initial environment and the program) evaluates the decidable
+    forms of `InFrag`, `PathOK`, `PropOK` for every line in the environment the MODEL's own run
+    reaches, and demands of an import line at indent `i` that its statement addresses the
+    destination `impDest` computes from the hierarchy stack.  For every program it accepts — no
+    `Prop`-valued hypothesis about the program is left — whenever the specification accepts the
+    statements, the main loop accepts the lines and ends in the abstraction of the specification's
+    result.  (`runNB` is sound for `RunN`; unlike `fragRunB` it is not claimed complete: `ImpPathOK`
+    also holds for other spellings of the same destination.) -/
+theorem C17_refinement_nested_checked_partial (tbl : UnitTable) (lines : List NLine) (items : List Item)
+    (env : Env) (s' : SEnv) (hinv : Inv tbl env) (hchk : runNB tbl env lines = true)
+    (hc : lines.mapM NLine.item = some items)
+    (h : sRun tbl (absEnv env) (lines.filterMap NLine.stmt?) = .ok s') :
+    ∃ env', items.foldlM (step tbl) env = .ok env' ∧ absEnv env' = s' ∧ Inv tbl env' :=
+  refine_runN tbl lines items env s' hinv (runNB_sound tbl env lines hchk) hc h
+
+/-- the nested check accepts `a float = 3 m` / `g` / `  b float = {?a}` / `  {?*}` / `  !constant`
+    (the import at indent 2 re-creates `a` and `g.b` below `g`; the property line is for `g.g.b`) -/
+example : runNB unitTable Env.empty
+    [.base (.stmt 0 ['a'] (.defn [['a']] .float [] (.lit (.num 3)) (some ['m']))),
+     .base (.group 0 ['g']),
+     .base (.stmt 2 ['b'] (.defn [['g'], ['b']] .float [] (.inj none (.exact [['a']]) []) none)),
+     .imp 2 [] [['g']] none .all,
+     .base (.prop [['g'], ['g'], ['b']] .constant)] = true := by
+  decide +kernel
+
+/-- The case the import side condition of `InFrag` excludes, as a theorem of its own: when the
+    specification's import selects no node — it then records `mayReject`, i.e. allows the program
+    to be rejected — the model's import line, at any indent and with any written prefix, IS an
+    error (no entry is added).  Together with `C17_refinement_import_at_step` every import whose
+    source exists is covered: selection non-empty → same result on both sides; empty → rejected. -/
+theorem C17_refinement_import_empty (tbl : UnitTable) (env : Env) (hinv : Inv tbl env) (i : Nat)
+    (pre dest : List Str) (source : Option Str) (q : SQuery) (hws : WFSource source) (hq : WFQ q)
+    (ss : List SNode) (hl : sLookup (absEnv env) source = some ss) (hsel : select q ss = []) :
+    sStep tbl (absEnv env) (.imp dest source q) = .ok { absEnv env with mayReject := true } ∧
+    ∃ e, step tbl env (.node (impAt i pre source q)) = .error e := by
+  refine ⟨?_, imp_empty_rejected tbl env hinv i pre source q hws hq ss hl hsel⟩
+  simp [sStep, hl, hsel]
+
+/-- non-trivial instance: one node `a`, the request `b.*` selects nothing -/
+example : let env : Env := { Env.empty with
+      nodes := [{ blank ['a'] .float with value := some (.num 3), unitsRaw := some ['m'] }] }
+    WFSource none ∧ WFQ (.children [['b']]) ∧
+    sLookup (absEnv env) none = some (absEnv env).nodes ∧ select (.children [['b']]) (absEnv env).nodes = [] := by
+  intro env
+  refine ⟨by simp [WFSource], ⟨⟨by simp, by simp⟩, by simp [joinDot]⟩, by simp [sLookup, absEnv, env], ?_⟩
+  simp [select, absEnv, env, absN, blank, splitDot, sMatches, List.filter]
 
 /-- a property line in its documented place: "update the node at the path" (specification) and
     "update the last node" (code) are the same update -/
